@@ -329,6 +329,18 @@ def one_builder(case, rng):
         return [V("builder", "%s/tau-zero" % name, "tau=0 but returned %r" % (sorted(got, key=repr),), case)]
     if case["gamma"] == 0 and case["tau"] > 0 and got != comp:
         return [V("builder", "%s/gamma-zero" % name, "gamma=0 but returned %r, component %r" % (sorted(got, key=repr), sorted(comp, key=repr)), case)]
+    # initial_infecteds omitted: one random node that is not initially recovered
+    if len(labels) > len(R0):
+        kw2 = {"initial_recovereds": R0} if R0 else {}
+        r = run_under(SimRandom(SEEDED, seed=case["seam"]["seed"] + 2), EoN.get_infected_nodes, G, case["tau"], case["gamma"], **kw2)
+        if r.status == "exc":
+            return [V("crash", "%s/exception" % name, "initial_infecteds omitted: %r" % (r,), case)]
+        if r.status == "done":
+            got2 = set(r.value)
+            ok = bool(got2) and not (got2 & set(R0)) and any(got2 <= nx.node_connected_component(Gm, u) for u in got2)
+            if not ok:
+                return [V("builder", "%s/default-seed" % name, "initial_infecteds omitted, recovered %r: returned %r"
+                          % (R0, sorted(got2, key=repr)), case)]
     return out
 
 
